@@ -36,6 +36,8 @@ m = {
     "engines": [
         {"name": "E1-input-space", "path": "harness/chk_load.c", "serves_properties": [p for p in ALL if CHECKS.get(p, {}).get("engine") == "E1-input-space"],
          "kind_free_text": "exhaustive enumeration of byte strings and pushdown DFS over a head alphabet, real library in lock-step with a reference decoder"},
+        {"name": "E1-value-domain", "path": "harness/chk_stream.c, harness/chk_encode.c", "serves_properties": [p for p in ALL if CHECKS.get(p, {}).get("engine") == "E1-value-domain"],
+         "kind_free_text": "complete enumeration of finite value domains (initial bytes, arguments, buffer lengths, float patterns) against reference tokeniser/encoder"},
     ],
     "checks": checks,
     "not_applicable": na,
